@@ -12,6 +12,7 @@ def build(ctx):
         ctx.task('contracts.emit:task_emit_pass', p)
     common.encoder_tasks(ctx, lambda m: m in common.TRANSFER_MNEMONICS, parts=('legal', 'decode'))
     ctx.task('contracts.relocate:task_relocate')
+    ctx.task('contracts.pipeline:task_pipeline')      # assemble() establishes what each pass contract assumes
     ctx.task('contracts.parse:task_parse')        # a name as jump / branch operand is a location (%offset), a number an offset
     ctx.task('contracts.exprs:task_exprs')
     ctx.assume('label names are pairwise distinct and distinct from constant names (otherwise "its target label" is undefined)')
